@@ -719,19 +719,30 @@ def _segment_meets_cell(geo, c, o, e, eps):
     return True
 
 
-def _amplified_error(geo, o, e):
-    """bound on the rounding error of a first crossing parameter, (voxelBorder - origin) / direction, in length units:
-    the border and the origin coordinate carry ~2 ulp of their magnitude, and the difference is divided by the
-    direction component |e_i - o_i| / range.  For a ray that is parallel to an axis up to a few ulp this is of the
-    order of the ray length itself."""
+def _ill_conditioned_axis(geo, o, e, ocell):
+    """The axis (if any) whose first crossing parameter (voxelBorder - origin) / direction is dominated by rounding.
+    The border and the origin coordinate carry ~2 ulp of the extent's magnitude each (`err_b`, a length); dividing by the
+    direction component |e_i - o_i| / range amplifies this to `amp = err_b * range / |e_i - o_i|` (a length along the
+    ray).  It only matters when the crossing is (nearly) needed, i.e. when the origin is within |e_i - o_i| + rounding
+    of the border in the direction of travel: the ray straddles — or all but touches — a cell border on an axis it is
+    nearly perpendicular to.  Returns (amp, |e_i - o_i| / range, axis) of the worst such axis, or None."""
     rng_ = math.sqrt(sum((x - y) ** 2 for x, y in zip(o, e)))
     m = EPS[geo['T']]
-    worst = 0.0
+    r, c0 = geo['r'], geo['c0']
+    best = None
     for i in range(geo['dim']):
-        d = abs(e[i] - o[i])
-        if d > 0:
-            worst = max(worst, 4 * m * (max(abs(o[i]), abs(e[i])) + geo['r']) * rng_ / d)
-    return worst
+        d = e[i] - o[i]
+        if d == 0:
+            continue
+        err_b = 4 * m * (max(abs(geo['lo'][i]), abs(geo['hi'][i])) + r)    # centres are built from the snapped lower bound
+        s = 1 if d > 0 else -1
+        gap = s * (c0[i] + (ocell[i] + 0.5 * s) * r - o[i])          # origin -> first border in the direction of travel
+        if gap > abs(d) + 2 * err_b:
+            continue                                                 # that border is beyond the end: harmless
+        amp_i = err_b * rng_ / abs(d)
+        if best is None or amp_i > best[0]:
+            best = (amp_i, abs(d) / rng_, i)
+    return best
 
 
 def _check_chain(geo, o, e, ocell, ecell, chain, complete, bad0, stats):
@@ -739,13 +750,14 @@ def _check_chain(geo, o, e, ocell, ecell, chain, complete, bad0, stats):
     dim = geo['dim']
     l1 = sum(abs(a - b) for a, b in zip(ocell, ecell))
     eps = _eps(geo, o, e, l1)
-    amp = _amplified_error(geo, o, e)
+    ill = _ill_conditioned_axis(geo, o, e, ocell)
+    amp = ill[0] if ill else 0.0
 
     def bad(kind_, detail, cell=None, point=None, **fields):
-        # Finding "ill-conditioned-axis": on a ray that is parallel to an axis up to a few ulp the rounding error of the
-        # first crossing parameter is amplified by 1/|direction component| (`amp`, in length units).  A failure whose
-        # cell is still within eps + amp of the segment (resp. of the end point) is that finding; it is reported under
-        # its own kind (with `sub` = what went wrong) so that it is tracked separately from every other failure.
+        # Finding "ill-conditioned-axis" (known_findings.json): a failure whose offending cell is still within
+        # eps + amp of the segment (resp. of the end point) on a ray with such an axis is that finding; it is reported
+        # under its own kind (`sub` = what went wrong, `dir_ratio` = |direction component| of the axis) so that it is
+        # tracked separately.  Every other failure keeps its generic kind.
         explained = False
         if amp > eps and kind_ in ('cell-not-crossed', 'out-of-bounds') and cell is not None:
             explained = _segment_meets_cell(geo, cell, o, e, eps + amp)
@@ -753,8 +765,11 @@ def _check_chain(geo, o, e, ocell, ecell, chain, complete, bad0, stats):
             explained = _cell_has_point(geo, cell, e, eps + amp)
         if explained:
             stats['ill_conditioned_failures'] = stats.get('ill_conditioned_failures', 0) + 1
-            bad0('ill-conditioned-axis', detail + ' [first-crossing rounding error amplified to %.3g = %.3g cells]' % (amp, amp / geo['r']),
-                 sub=kind_, **fields)
+            stats['ill_conditioned_max_dir_ratio_' + geo['T']] = max(stats.get('ill_conditioned_max_dir_ratio_' + geo['T'], 0.0), ill[1])
+            cm = max(max(abs(x) for x in o), max(abs(x) for x in e))
+            bad0('ill-conditioned-axis', detail + ' [axis %d: |direction component| = %.3g, first-crossing rounding error amplified '
+                 'to %.3g = %.3g cells]' % (ill[2], ill[1], amp, amp / geo['r']),
+                 sub=kind_, dir_ratio=ill[1], axis=ill[2], coord_over_r=cm / geo['r'], **fields)
         else:
             bad0(kind_, detail, **fields)
     stats['chains_checked'] = stats.get('chains_checked', 0) + 1
